@@ -13,6 +13,8 @@ use tracing;
 pub(crate) struct PeerInfo {
   pub uri: String,
   pub strategy: Arc<dyn RouterSendStrategy>,
+  /// Read-pipe id of the connection that currently owns this identity.
+  pub pipe_read_id: usize,
 }
 
 #[derive(Debug, Default)]
@@ -34,6 +36,7 @@ impl RouterMap {
     let peer_info = PeerInfo {
       uri: endpoint_uri.clone(),
       strategy: Arc::new(DefaultRouterStrategy), // Use default strategy initially
+      pipe_read_id,
     };
 
     if let Some(old_info) = id_to_info_guard.insert(identity.clone(), peer_info) {
@@ -72,7 +75,15 @@ impl RouterMap {
 
     if let Some(identity) = identity_to_remove {
       let mut id_to_info_guard = self.identity_to_peer_info.write();
-      if let Some(removed_info) = id_to_info_guard.remove(&identity) {
+      // Another connection may have announced the same identity since (collision / reconnect with a
+      // fixed routing id): the forward entry then belongs to that connection and must survive.
+      if matches!(id_to_info_guard.get(&identity), Some(info) if info.pipe_read_id != pipe_read_id) {
+        tracing::trace!(
+          ?identity,
+          pipe_read_id,
+          "RouterMap: identity now owned by another pipe, forward mapping kept"
+        );
+      } else if let Some(removed_info) = id_to_info_guard.remove(&identity) {
         tracing::trace!(
             ?identity,
             pipe_read_id,
@@ -148,6 +159,7 @@ impl RouterMap {
     let peer_info = PeerInfo {
       uri: endpoint_uri.to_string(),
       strategy,
+      pipe_read_id,
     };
 
     let mut id_to_info_guard = self.identity_to_peer_info.write();
